@@ -842,3 +842,163 @@ func init() {
 			return obs
 		}})
 }
+
+// ARGS.same-name-same-slot — C20 ("relative locations resolve against the
+// directory of the file doing the loading"): which directory that is comes from
+// the location string stamped on the loading file's forms, and that string
+// travels through a chain of functions that each take `name` and `loc` — two
+// strings, side by side.  Passing them in the other order type-checks and
+// changes nothing when both are equal, which is what every test passes.
+func init() {
+	register(&Rule{ID: "ARGS.same-name-same-slot", Floor: 5,
+		Doc: "wherever a function of the interpreter passes two of its own identically-typed variables to a callee whose parameters carry the same two names, each goes to the parameter of its own name: `name` is never passed as `loc` and `loc` as `name` (the loading file's location, and with it the directory relative loads resolve against, reaches the parser under the right label)",
+		Run: func(c *Ctx) []Obligation {
+			const rid = "ARGS.same-name-same-slot"
+			var obs []Obligation
+			for _, u := range c.Funcs(func(p string) bool { return rel(p) == "lisp" || rel(p) == "repl" || rel(p) == "cmd" || rel(p) == "elpsutil" || rel(p) == "parser" }) {
+				if u.Decl == nil || u.Decl.Body == nil {
+					continue
+				}
+				info := u.Pkg.TypesInfo
+				ord := &ordinal{}
+				for _, ce := range callsIn(u.Decl.Body, true) {
+					f := originOf(Callee(info, ce))
+					if f == nil {
+						continue
+					}
+					sig, ok := f.Type().(*types.Signature)
+					if !ok || sig.Params().Len() < 2 {
+						continue
+					}
+					pos := map[string]int{}
+					for i := 0; i < sig.Params().Len(); i++ {
+						if nm := sig.Params().At(i).Name(); nm != "" && nm != "_" {
+							pos[nm] = i
+						}
+					}
+					// argument identifiers that bear a parameter name of the callee
+					type slot struct {
+						arg  int
+						name string
+					}
+					var named []slot
+					for i, a := range ce.Args {
+						if id, ok := ast.Unparen(a).(*ast.Ident); ok {
+							if _, has := pos[id.Name]; has && i < sig.Params().Len() {
+								named = append(named, slot{i, id.Name})
+							}
+						}
+					}
+					if len(named) < 2 {
+						continue
+					}
+					swapped := ""
+					for _, s1 := range named {
+						for _, s2 := range named {
+							if s1.arg < s2.arg && pos[s1.name] == s2.arg && pos[s2.name] == s1.arg &&
+								types.Identical(sig.Params().At(s1.arg).Type(), sig.Params().At(s2.arg).Type()) {
+								swapped = s1.name + " / " + s2.name
+							}
+						}
+					}
+					construct := ord.next("call " + f.Name())
+					if swapped != "" {
+						obs = append(obs, mkOb(c, rid, u, construct, ce, Violated, "the caller's variables "+swapped+" are passed to "+FuncName(f)+" in each other's place (same type, so it compiles): forms are stamped with the wrong location string, so a relative load-file issued from a program parsed this way resolves against the wrong directory — outside what the library would otherwise allow, or to a different file of the same name", true))
+					} else {
+						inPlace := true
+						for _, s := range named {
+							if pos[s.name] != s.arg {
+								inPlace = false
+							}
+						}
+						if inPlace {
+							obs = append(obs, mkOb(c, rid, u, construct, ce, Proved, "each like-named variable is passed in its own slot", false))
+						}
+					}
+				}
+			}
+			return obs
+		}})
+}
+
+// CONFINE.rootdir-defaulted — C20: RelativeFileSystemLibrary confines only when
+// its RootDir is non-empty; with the zero value it reads any path it is given.
+// The command-line entry points promise a root ("default: the working
+// directory"), so wherever they build this library the RootDir must be the
+// DEFAULTED directory, not the raw option the user may have left empty.
+func init() {
+	register(&Rule{ID: "CONFINE.rootdir-defaulted", Floor: 0,
+		Doc: "in the command-line packages (cmd, repl) every lisp.RelativeFileSystemLibrary literal sets RootDir to a local variable that an `if v == \"\" { v = … }` in front of it has defaulted: an entry point that documents a root directory never builds an unconfined library when the option is omitted.  (Zero sites today — the CLI confines through os.Root, see CONFINE.root-fs; the seeded change C20-r3m2 is the standing positive example re-checked by selftest.)",
+		Run: func(c *Ctx) []Obligation {
+			const rid = "CONFINE.rootdir-defaulted"
+			lp := c.Pkg("lisp")
+			if lp == nil {
+				return []Obligation{anchorMissing(rid, "package lisp")}
+			}
+			libT := lp.Types.Scope().Lookup("RelativeFileSystemLibrary")
+			if libT == nil {
+				return []Obligation{anchorMissing(rid, "lisp.RelativeFileSystemLibrary")}
+			}
+			var obs []Obligation
+			for _, u := range c.Funcs(func(p string) bool { return rel(p) == "cmd" || rel(p) == "repl" }) {
+				if u.Decl == nil || u.Decl.Body == nil {
+					continue
+				}
+				info := u.Pkg.TypesInfo
+				ord := &ordinal{}
+				ast.Inspect(u.Decl.Body, func(n ast.Node) bool {
+					cl, ok := n.(*ast.CompositeLit)
+					if !ok || !types.Identical(info.TypeOf(cl), libT.Type()) {
+						return true
+					}
+					construct := ord.next("RelativeFileSystemLibrary literal")
+					var val ast.Expr
+					for _, el := range cl.Elts {
+						if kv, ok := el.(*ast.KeyValueExpr); ok {
+							if id, ok := kv.Key.(*ast.Ident); ok && id.Name == "RootDir" {
+								val = kv.Value
+							}
+						}
+					}
+					if val == nil {
+						obs = append(obs, mkOb(c, rid, u, construct, cl, Violated, "no RootDir: the library reads any path, absolute or through `..`, that a program names", true))
+						return true
+					}
+					v := identObj(info, val)
+					defaulted := false
+					if v != nil {
+						ast.Inspect(u.Decl.Body, func(m ast.Node) bool {
+							is, ok := m.(*ast.IfStmt)
+							if !ok || is.Pos() > cl.Pos() {
+								return true
+							}
+							be, ok := ast.Unparen(is.Cond).(*ast.BinaryExpr)
+							if !ok || be.Op != token.EQL || identObj(info, be.X) != v {
+								return true
+							}
+							if s, ok := constStringVal(info, be.Y); !ok || s != "" {
+								return true
+							}
+							for _, st := range is.Body.List {
+								if as, ok := st.(*ast.AssignStmt); ok {
+									for _, l := range as.Lhs {
+										if identObj(info, l) == v {
+											defaulted = true
+										}
+									}
+								}
+							}
+							return true
+						})
+					}
+					if defaulted {
+						obs = append(obs, mkOb(c, rid, u, construct, cl, Proved, "RootDir is the defaulted directory", true))
+					} else {
+						obs = append(obs, mkOb(c, rid, u, construct, cl, Violated, "RootDir is `"+types.ExprString(val)+"`, which nothing in front of the literal makes non-empty: when the option is omitted (documented default: the working directory) the library is unconfined and load-file reads absolute paths, `..` paths and symbolic links to anywhere", true))
+					}
+					return true
+				})
+			}
+			return obs
+		}})
+}
